@@ -51,6 +51,8 @@ void Stats::add(const Stats& o) {
     inconclusive += o.inconclusive;
     for (auto& kv : o.faults)
         faults[kv.first] += kv.second;
+    for (auto& kv : o.reach)
+        reach[kv.first] += kv.second;
 }
 
 J Stats::json() const {
@@ -89,6 +91,10 @@ J Stats::json() const {
     for (auto& kv : faults)
         f.set(kv.first, J((unsigned long long)kv.second));
     j.set("faults_fired", f);
+    J rc = J::obj();
+    for (auto& kv : reach)
+        rc.set(kv.first, J((unsigned long long)kv.second));
+    j.set("reach", rc);
     return j;
 }
 
@@ -1388,6 +1394,7 @@ struct Exec {
             std::vector<int> idx(k, 0);
             std::set<int> next_done;
             std::string kinds = m.si.kinds;
+            res.st.reach["tuples:" + kinds] += n;
             for (std::uint64_t t = 0; t < n && !stop; ++t) {
                 std::vector<int> tuple(k);
                 if (all) {
@@ -2160,6 +2167,7 @@ struct Exec {
             return;
         }
         ++res.st.updates_completed;
+        ++res.st.reach["updates:" + ops.name];
         s.last_allocs = uo.allocs;
         log(ls.str());
         for (auto& h : s.held)
@@ -2380,7 +2388,7 @@ struct Exec {
             // not legal: only as the "lost registration" fault, on a checked
             // policy, for a class with no live record at all
             bool any_alias_registered = L.reg[c];
-            if (!plan.allow_missing || !ops.caps.checked ||
+            if (!plan.allow_missing || !ops.caps.lookup_checked ||
                 any_alias_registered || w.abstract[c])
                 return invalid("call: illegal argument class");
             if (is_vp_kind(vk[i]) &&
@@ -2548,7 +2556,7 @@ struct Exec {
         Lattice L = make_lattice(plan, s.updated);
         bool missing = false;
         if (!legal_arg(s, L, e.cls, e.alias, e.cls)) {
-            if (!plan.allow_missing || !ops.caps.checked || L.reg[e.cls] ||
+            if (!plan.allow_missing || !ops.caps.lookup_checked || L.reg[e.cls] ||
                 w.abstract[e.cls])
                 return invalid("vp_make: illegal class");
             missing = true;
